@@ -47,7 +47,7 @@ def cfg_strategy():
         return st.sampled_from(sorted(SUBK)).flatmap(lambda k: st.tuples(st.just(k), st.lists(st.sampled_from(subsets(SUBK[k]) + [SUBK[k]]), min_size=1, max_size=2)))
     return st.sampled_from(sorted(PRIM)).flatmap(lambda kid: st.fixed_dictionaries({
         'primary': st.just(kid), 'uids': st.lists(uid(kid), min_size=1, max_size=2),
-        'subs': st.lists(sub(), max_size=3, unique_by=lambda x: x[0]), 'unhashed': st.sampled_from([False, False, True]), 'wide': st.sampled_from([False, False, True])}))
+        'subs': st.lists(sub(), max_size=3, unique_by=lambda x: x[0]), 'unhashed': st.sampled_from([False, False, True]), 'wide': st.sampled_from([False, False, True]), 'bare': st.sampled_from([0, 0, 0, 1, 2])}))
 
 
 def build(cfg, secret, locked=False, with_uids=True, sub_pw=None):
@@ -71,6 +71,9 @@ def build(cfg, secret, locked=False, with_uids=True, sub_pw=None):
     t0 = ppub.created + 100
     # a key-flags subpacket in the *unhashed* area is not covered by the signature: anyone can add it, so it grants nothing
     unauth = keypool.sp(27, bytes([C | S | EC | ES | A])) if cfg.get('unhashed') else b''
+    if with_uids and cfg.get('bare') == 1:
+        # a User ID packet without any self-signature (legal, RFC 4880 11.1; anybody can add one): it says nothing about the key
+        out += wire.build_packet(13, b'Bare Identity <bare@example.org>')
     if with_uids:
         for i, flags in enumerate(cfg['uids']):
             ub = ('User %d <u%d@example.org>' % (i, i)).encode()
@@ -79,6 +82,8 @@ def build(cfg, secret, locked=False, with_uids=True, sub_pw=None):
             extra = keypool.sp(27, bytes([flags | C]) + (b'\x0e' if cfg.get('wide') else b'')) + keypool.sp(11, bytes([9, 7])) + keypool.sp(21, bytes([8])) + keypool.sp(22, bytes([2, 0]))
             body = rsig.sign(psec, 0x13, 8, ('cert', ppub, 'uid', ub), keypool.std_hashed(t0 + (len(cfg['uids']) - i), ppub.fingerprint, extra), keypool.sp(16, ppub.keyid) + unauth)
             out += wire.build_packet(13, ub) + wire.build_packet(2, body)
+    if with_uids and cfg.get('bare') == 2:
+        out += wire.build_packet(13, b'Aaa Bare Identity')
     for skid, hist in cfg['subs']:
         ssec = keypool.ref_secret(skid)
         spub = ssec.pub
@@ -205,7 +210,7 @@ def evaluate(c, rec):
         user = None
     comps = components(cfg, user)
     case = dict(c, user=user)
-    key = (cfg['primary'], tuple(cfg['uids']), tuple((k, tuple(h)) for k, h in cfg['subs']), op, form, enforce, user, bool(cfg.get('unhashed')), bool(cfg.get('wide')))
+    key = (cfg['primary'], tuple(cfg['uids']), tuple((k, tuple(h)) for k, h in cfg['subs']), op, form, enforce, user, bool(cfg.get('unhashed')), bool(cfg.get('wide')), cfg.get('bare', 0))
     labels = ['op/' + op, 'form/' + form, 'enforce/%s' % enforce, 'nsubs/%d' % len(cfg['subs'])] + (['unauthenticated-flags-in-unhashed-area'] if cfg.get('unhashed') else []) + (['two-octet-key-flags'] if cfg.get('wide') else [])
     sample = {'primary': cfg['primary'], 'identity_flags': cfg['uids'], 'subkeys': cfg['subs'], 'op': op, 'form': form, 'enforcement': enforce, 'user': user}
 
@@ -361,6 +366,8 @@ FIXED = [
     {'primary': 'rsa1024-0', 'uids': [0], 'subs': [('rsa1024-1', [A])], 'unhashed': True},
     {'primary': 'rsa1024-0', 'uids': [0], 'subs': [('rsa1024-1', [A]), ('cv25519-0', [0])], 'wide': True},
     {'primary': 'ed25519-0', 'uids': [A], 'subs': [('ed25519-1', [0])], 'wide': True},
+    {'primary': 'ed25519-0', 'uids': [S], 'subs': [], 'bare': 1},
+    {'primary': 'rsa1024-0', 'uids': [0], 'subs': [('ed25519-1', [S]), ('cv25519-0', [EC])], 'bare': 2},
     {'primary': 'ed25519-0', 'uids': [0], 'subs': [('ecdsa-p256-1', ['unhashed-only']), ('ed25519-1', [S]), ('cv25519-0', ['unhashed-only']), ('cv25519-1', [EC])]},
     {'primary': 'ed25519-0', 'uids': [0], 'subs': [('ecdsa-p256-1', ['nobind']), ('ed25519-1', [S]), ('cv25519-0', ['nobind']), ('cv25519-1', [EC])]},
 ]
